@@ -203,7 +203,7 @@ pub fn profile_for(prop: &str, thorough: bool) -> Profile {
             p.w.burst = 2;
             p.burst_sizes = vec![700, 1400];
             p.w.hot_gets = 1;
-            p.w.insert_batch = 8;
+            p.w.insert_batch = 12;
             p.cap = CapMode::Bounded;
             p.sync_every_op = true;
             p.sync_plain = true;
@@ -423,8 +423,8 @@ pub fn build_case(p: &Profile, rc: RawCfg, raw_ops: Vec<RawOp>) -> Case {
     };
     let cap_for_table = if cap_choice == 1 { Some(small.max(if p.sync_plain { 1 } else { 0 })) } else { None };
     // rare: numeric boundaries of the weight (u32) and capacity (u64) types
-    let huge = p.huge && weigher == WeigherKind::Value && rc.cap_slack % 24 == 5 && cap_choice == 1;
-    let huge_caps: [u64; 5] = [u32::MAX as u64, 1 << 32, (1 << 32) + 5, 1 << 33, 1 << 50];
+    let huge = p.huge && weigher == WeigherKind::Value && rc.cap_slack % 12 == 5 && cap_choice == 1;
+    let huge_caps: [u64; 5] = [u32::MAX as u64, 1 << 32, 1 << 50, 1 << 33, 1 << 50];
     let huge_cap = huge_caps[idx(rc.cap_small as u32, 256, 5) as usize];
     let table = if huge { vec![0, 1, 1 << 31, (1 << 31) + 1, u32::MAX - 1, u32::MAX, 1 << 31, u32::MAX] } else { weight_table(cap_for_table) };
     let wmap = |k: u32, w: u8| -> u32 {
@@ -562,10 +562,19 @@ pub fn build_case(p: &Profile, rc: RawCfg, raw_ops: Vec<RawOp>) -> Case {
             }
             RawOp::InsertBatch { items, n } => {
                 if kind == Kind::Sync {
+                    // every third batch writes the same one or two keys repeatedly (a queued
+                    // write superseded by another one before maintenance applies either),
+                    // after making them popular enough to be admitted
+                    let repeat = n % 3 == 2;
+                    if repeat {
+                        for it in items.iter().take(2) {
+                            push(&mut ops, Op::Get { k: kmap(it.0) });
+                        }
+                    }
                     ops.push(Op::EnterBeyond);
                     let n = 2 + idx(n as u32, 256, 3) as usize;
-                    for (k, w) in items.iter().take(n) {
-                        let k = kmap(*k);
+                    for (i, (k, w)) in items.iter().take(n).enumerate() {
+                        let k = kmap(if repeat { items[i % 2].0 } else { *k });
                         ops.push(Op::Insert { k, w: wmap(k, *w) });
                     }
                     ops.push(Op::Sync);
@@ -598,7 +607,7 @@ pub fn build_case(p: &Profile, rc: RawCfg, raw_ops: Vec<RawOp>) -> Case {
         extra: vec![],
         drop_unsynced: p.drop_unsynced && rc.drop_unsynced && kind == Kind::Sync,
     };
-    if huge && p.huge_burst && rc.nkeys % 4 == 0 && hasher == HasherKind::Sip {
+    if huge && p.huge_burst && hasher == HasherKind::Sip {
         case.ops.push(Op::Burst { n: 140_000, w: u32::MAX, gets: false });
         if kind == Kind::Sync {
             case.ops.push(Op::Sync);
